@@ -22,7 +22,14 @@ package bitmap
 //@ pure func inrange4(a *IPv4Allocator, ip net.IP) bool = isv4(ip) && v4of(ip) >= a.start && v4of(ip) <= a.end
 //@ pure func off4(a *IPv4Allocator, ip net.IP) uint = uint(v4of(ip) - a.start)
 
+// the interface-level view of an IPv4 range allocator (allocators.Allocator contract)
+//@ abstracts outst(a *IPv4Allocator)[key bv128] = key >= zext(128, a.start) && key <= zext(128, a.end) && bits(a.bitmap)[uint(trunc(32, key) - a.start)]
+//@ abstracts poollo(a *IPv4Allocator) = zext(128, a.start)
+//@ abstracts poolhi(a *IPv4Allocator) = zext(128, a.end)
+//@ abstracts v4pool(a *IPv4Allocator) = true
+
 //@ func (*IPv4Allocator).Allocate
+//@   refines allocators.Allocator
 //@   requires wf4(a) && !held(a.l)
 //@   modifies bits(a.bitmap), blen(a.bitmap), held(a.l)
 //@   ensures wf4(a) && !held(a.l)
@@ -43,7 +50,9 @@ package bitmap
 //@   ensures[C06:failure-changes-nothing] ret != nil ==> bits(a.bitmap) == old(bits(a.bitmap))
 
 //@ func NewIPv4Allocator
+//@   constructs allocators.Allocator
 //@   modifies nothing
+//@   ensures[C02,C05:view-empty-pool-as-configured] ret1 == nil ==> ((forall key bv128: !outst(ret0)[key]) && poollo(ret0) == zext(128, v4of(start)) && poolhi(ret0) == zext(128, v4of(end)) && v4pool(ret0))
 //@   ensures[C05:accepts-iff-nonempty-range] (ret1 == nil) <==> (isv4(start) && isv4(end) && v4of(start) <= v4of(end))
 //@   ensures[C04,C05:empty-and-exact-size] ret1 == nil ==> (fresh(ret0) && wf4(ret0) && !held(ret0.l) && ret0.start == v4of(start) && ret0.end == v4of(end) && \
 //@       bits(ret0.bitmap) == emptyset(uint))
